@@ -89,6 +89,23 @@ def witness_search(tier, seed):
                     got = f"raised {type(e).__name__}"
                 if got != expect:
                     return dict(input=dict(property=prop, value=val, behaviors=str(beh)), detail=f"conversion did '{got}', the policy says '{expect}'")
+    # supplied templates are left unmodified and share nothing with the result (conversion through one template twice)
+    from simfile.sm import SMChart
+    tmpl = SMSimfile(string="#TITLE:template;#CREDIT:me;#NOTES:dance-single:t:Easy:1:0,0,0,0,0:0000;")
+    ctmpl = SMChart.from_str("dance-single:ct:Hard:9:0,0,0,0,0:1111")
+    ctmpl.extradata = ["x"]
+    src = SSCSimfile(string="#VERSION:0.83;#TITLE:src;#BPMS:0=120;#NOTEDATA:;#STEPSTYPE:dance-single;#DESCRIPTION:d;#DIFFICULTY:Easy;#METER:2;#RADARVALUES:0,0,0,0,0;#NOTES:0000;")
+    before = (list(tmpl.items()), [list(c.items()) for c in tmpl.charts], list(ctmpl.items()), list(ctmpl.extradata))
+    for round_ in (1, 2):
+        try:
+            out = ssc_to_sm(src, simfile_template=tmpl, chart_template=ctmpl)
+        except Exception as e:
+            return dict(input="ssc_to_sm with a simfile template that has a chart and a chart template", detail=f"raised {type(e).__name__}: {e}")
+        after = (list(tmpl.items()), [list(c.items()) for c in tmpl.charts], list(ctmpl.items()), list(ctmpl.extradata))
+        if after != before:
+            return dict(input=f"ssc_to_sm through the same templates, conversion #{round_}", detail="a supplied template was modified by the conversion")
+        if len(out.charts) != 2 or out.charts is tmpl.charts or any(a is b for a in out.charts for b in tmpl.charts):
+            return dict(input=f"ssc_to_sm through the same templates, conversion #{round_}", detail=f"result has {len(out.charts)} charts (template 1 + source 1 expected) or shares objects with the template")
     # chart-level properties: each under the behaviour of its own kind
     for kind, plist in CV.SM_CHART_INVALID.items():
         for prop in plist:
@@ -132,3 +149,8 @@ def witness_search(tier, seed):
 
 from pyvc.xcheck import OrderedDictProbe   # noqa: E402
 THOROUGH_BOUNDED = [OrderedDictProbe()]
+
+
+# supplier units (see props/suppliers.py)
+from props import suppliers as _S   # noqa: E402
+UNITS = _S.extend(UNITS, _S.timing_readers(), [u for u in _S.accessors(("SMSimfile", "SSCSimfile", "SSCChart")) if u.name.endswith(".getter")])
